@@ -152,6 +152,10 @@ func GenPools(r *simrt.Rand, size int) *Pools {
 		}
 		if s, ok := strSrc[path]; ok {
 			p.S[path] = subS(r, s, n)
+			if path != "Raw" && r.Chance(1, 5) {
+				// strings that are not valid UTF-8 (one or two adjacent bad bytes) in every fifth pool
+				p.S[path] = append(p.S[path], []string{"caf\uE0E9", "\uE0FF\uE0FE", "k\uE0FF\uE0FE", "a\uE0C3"}[r.Intn(4)])
+			}
 		}
 	}
 	return p
